@@ -12,6 +12,7 @@ import FDAProofs.Lemmas.PSplines
 import FDAProofs.Lemmas.GLAM
 import FDAProofs.Lemmas.Bases
 import FDAProofs.Lemmas.Marsden
+import FDAModel.Generated.PSplineFormulas
 
 namespace C05
 open FDA FDA.BSpline FDA.PSpline FDA.GLAM Finset Polynomial
@@ -997,5 +998,76 @@ example : rd (glamHat witnessDims witnessX #[1]) (0 * 1 + 0)
 
 example : ∑ l ∈ range 5, diffMat 2 1 l * (∑ j ∈ range 2, (fun j => (j : ℚ) + 3) j * (l : ℚ) ^ j) = 0 :=
   poly_coeffs_annihilated 5 2 _ 1 (by norm_num)
+
+/-! ## The formulas as the SOURCE has them (`Generated/PSplineFormulas.lean`, regenerated from
+`FDApy/preprocessing/smoothing/psplines.py` on every run by `harness/c05_translate.py`) are the model's -/
+
+section Source
+open FDA.Generated.PSpline
+
+/-- Closes what unfolding leaves of "source formula = model formula", so that harmless rewritings of the source re-prove. -/
+macro "src_close" : tactic =>
+  `(tactic| first | rfl | (simp; done) | (push_cast; ring_nf; done) | omega | (simp; omega) | (simp; ring_nf; done))
+
+/-- The defaults of `PSplines.__init__` in the source are the model's. -/
+theorem defaults_src_eq_model :
+    defaultNSegments = defaultNSeg ∧ Generated.PSpline.defaultDegree = PSpline.defaultDegree ∧
+      defaultOrderPenalty = defaultOrder ∧ defaultOrderDerivative = 0 := by
+  refine ⟨?_, ?_, ?_, ?_⟩ <;> decide
+
+/-- `fit` and `predict` ask `_basis_bsplines` for `n_segments + degree` functions of the given degree — the basis size
+`nseg + p` of the model's `basisOn` / `predict1`. -/
+theorem n_functions_src_eq_model (nseg p : ℕ) :
+    nFunFit nseg p = nseg + p ∧ degFit nseg p = p ∧ nFunPredict nseg p = nseg + p ∧ degPredict nseg p = p := by
+  refine ⟨?_, ?_, ?_, ?_⟩ <;> simp only [nFunFit, degFit, nFunPredict, degPredict] <;> src_close
+
+/-- The difference penalty of the source (1-D and n-D) is the model's `penMat`: `np.diff` of the identity of the requested
+order along axis 0 (= `diffMat ord`, rows `0 … nb − ord − 1`) and the Gram product `DᵀD`. -/
+theorem penalty_src_eq_model (nb ord k l : ℕ) :
+    penAxis1 = 0 ∧ penAxisN = 0 ∧ penGramDtD1 = true ∧ penGramDtDN = true ∧
+    (∑ r ∈ Finset.range (nb - penOrder1 ord), diffMat (penOrder1 ord) r k * diffMat (penOrder1 ord) r l) = penMat nb ord k l ∧
+    (∑ r ∈ Finset.range (nb - penOrderN ord), diffMat (penOrderN ord) r k * diffMat (penOrderN ord) r l) = penMat nb ord k l := by
+  refine ⟨by decide, by decide, by decide, by decide, ?_, ?_⟩ <;> simp only [penOrder1, penOrderN, penMat] <;> src_close
+
+theorem repeat2_eq (dims : List Dim) : repeat2 dims = repeatL 2 (dims.map (·.m)) := by
+  unfold repeat2 repeatL
+  induction dims with
+  | nil => rfl
+  | cons d ds ih => simp [List.flatMap_cons, List.replicate] at ih ⊢; exact ih
+
+theorem tile2_eq (dims : List Dim) : tile2 dims = tileL 2 (dims.map (·.m)) := by
+  unfold tile2 tileL; simp [List.replicate]
+
+/-- The arrangement of `bwb_mat` (`np.repeat`, `_create_permutation(2, d)`) and of the inverse (`np.tile`,
+`_create_permutation(d, 2)`) in the source are those of the model's `glamBWB` / `glamHat` — the site of the repaired
+hat-matrix defect: the pristine arrangement makes this theorem fail. -/
+theorem arrangement_src_eq_model (dims : List Dim) :
+    bwbShape (dims.map (·.m)) = repeat2 dims ∧ bwbPerm dims.length = createPermutation 2 dims.length ∧
+    hatShape (dims.map (·.m)) = tile2 dims ∧ hatPerm dims.length = createPermutation dims.length 2 := by
+  refine ⟨?_, ?_, ?_, ?_⟩
+  · rw [repeat2_eq]; rfl
+  · rfl
+  · rw [tile2_eq]; rfl
+  · rfl
+
+/-- `_create_permutation` as written (`np.arange`, `np.add.outer`, `flatten("F")`) is the model's `createPermutation`. -/
+theorem create_permutation_src_eq_model (p k : ℕ) : createPermutationSrc p k = createPermutation p k := by
+  unfold createPermutationSrc createPermutation
+  first
+    | (simp only [flattenF, outerAdd, arangeN, Nat.sub_zero, Nat.zero_add]; done)
+    | (simp only [flattenF, outerAdd, arangeN, Nat.sub_zero, Nat.zero_add]; apply List.map_congr_left; intro t _; src_close)
+    | (simp [flattenF, flattenC, outerAdd, arangeN]; done)
+
+/-- `_row_tensor` as written (`np.kron(x, 1ᵀ) * np.kron(1ᵀ, y)`) is the model's `rowTensor`. -/
+theorem row_tensor_src_eq_model (qx q : ℕ) (X Y : ℕ → ℕ → ℚ) (i c : ℕ) :
+    rowTensorSrc qx q X Y i c = rowTensor q X Y i c := by
+  unfold rowTensorSrc rowTensor
+  first | rfl | (simp only [kronOnesRight, kronOnesLeft]; src_close)
+
+/-- `_rotate` moves the FIRST axis to the LAST position (the convention `rotatedH` implements). -/
+theorem rotate_src_eq_model : rotateSrcAxis = 0 ∧ rotateDstAxis = -1 := by
+  constructor <;> decide
+
+end Source
 
 end C05
